@@ -32,7 +32,9 @@ Transcription map (the C++ as FIXED in the verification worktree, see known_find
 * `tN2kMsg::AddByte`/`GetByte`    → `addByte` / `getByte`
 * `tN2kMsg::AddVarStr` (5-argument form; the 2-argument form is `maxLen=5000, unicode, bytes`) → `addVarStr`
 * `tN2kMsg::GetStr(char*,size_t,int&)` → `getStr1`;  `GetStr(size_t,char*,size_t,uchar,int&)` → `getStr2`
-* `tN2kMsg::GetVarStr`            → `getVarStr`
+* `tN2kMsg::GetVarStr`            → `getVarStr` (4 arguments), `getVarStr3` (nulChar 0xff)
+* `tN2kMsg::AddVarStr(str,UsePgm)` → `addVarStr2`; `tN2kMsg::AddBuf` → `addBuf` (`wrList`); `tN2kMsg::GetBuf` → `getBuf`
+  (`copyOut`, as fixed: Index advances after the copy), `getBufNull` (null buffer)
 -/
 namespace N2k.Text
 
@@ -459,5 +461,50 @@ def getVarStr (m : Msg) (n : Nat) (dst : D) (nul idx : Nat) : M (Bool × Nat × 
         pure (true, ulen, idx + len, dst)
     -- no buffer to copy to: report the size needed (UCS-2: at most 3 UTF-8 bytes per character)
     else pure (true, if type = 0x01 then len else (len / 2) * 3, idx + len, dst)
+
+/-! ## `AddVarStr(str, UsePgm)`, `AddBuf`, `GetBuf` -/
+
+/-- `tN2kMsg::AddVarStr(const char *str, bool UsePgm=false)`: `AddVarStr(str,5000,vss_SupportUnicode,vsl_UseBytes,UsePgm)` -/
+def addVarStr2 (m : Msg) (str : Ptr) : M Msg := addVarStr m str 5000 true false
+
+/-- `bool GetVarStr(size_t &StrBufSize, char *StrBuf, int &Index)`: nulChar 0xff -/
+def getVarStr3 (m : Msg) (n : Nat) (dst : D) (idx : Nat) : M (Bool × Nat × Nat × D) := getVarStr m n dst 0xff idx
+
+/-- `memcpy(Data+i, src, |src|)` -/
+def wrList : List Nat → Nat → D → M D
+  | [], _, d => pure d
+  | b :: t, i, d => do
+    let d ← wr d i b
+    wrList t (i + 1) d
+
+/-- `tN2kMsg::AddBuf(buf, bufLen)`; the caller's array `buf` has exactly `bufLen` bytes -/
+def addBuf (m : Msg) (buf : List Nat) : M Msg := do
+  let bufLen := buf.length
+  let bufLen :=
+    if m.len < MaxDataLen then (if m.len + bufLen > MaxDataLen then MaxDataLen - m.len else bufLen) else 0
+  if bufLen > 0 then do
+    let d ← wrList (buf.take bufLen) m.len m.data
+    pure ⟨d, m.len + bufLen⟩
+  else pure m
+
+/-- `memcpy(buf, Data+idx, k)` byte by byte (`j` = bytes done) into a destination of `n` bytes -/
+def copyOut (m : Msg) (n : Nat) : Nat → Nat → Nat → D → M D
+  | 0, _, _, dst => pure dst
+  | k + 1, idx, j, dst => do
+    let v ← rd m (idx + j)
+    let dst ← wd n dst j v
+    copyOut m n k idx (j + 1) dst
+
+/-- `bool GetBuf(void *buf, size_t Length, int &Index)` with a non-null `buf` of `n` bytes (contract `n ≥ Length`)
+    → (ret, Index, buf). As fixed: `Index` advances by `Length` after a copy as well. -/
+def getBuf (m : Msg) (n : Nat) (dst : D) (length idx : Nat) : M (Bool × Nat × D) :=
+  if idx + length ≤ m.len then do
+    let dst ← copyOut m n length idx 0 dst
+    pure (true, idx + length, dst)
+  else pure (false, m.len, dst)
+
+/-- `GetBuf(0, Length, Index)`: just pass the bytes → (ret, Index) -/
+def getBufNull (m : Msg) (length idx : Nat) : Bool × Nat :=
+  if idx + length ≤ m.len then (true, idx + length) else (false, m.len)
 
 end N2k.Text
